@@ -311,13 +311,9 @@ def h_mm_commit(env: str, metadata_only_stamp=False):
         PV = z3.Function("ghost.hint_version", STR, z3.IntSort())
         if ver is None:
             h.fail("WRITABLE:a-version-number-is-assigned")
-        elif cas and etag_reads:
-            ct = etag_reads[-1]["content"]
-            last = g.get("cvi_last")
-            h.ensure("WRITABLE:next-version=version-of-the-hint-read-with-its-etag+1(else-recovery-aware)",
-                     z3.If(PARSE_OK(ct), ver == PV(ct) + 1,
-                           (ver == pyops.int_z(last[0]) + 1) if isinstance(last, tuple) else ver == 1))
         else:
+            # on EVERY backend: a pointer that parses but names a missing file (stale / damaged) must not be the source of the
+            # version number - the next version has to exceed every version that exists (recovery-aware resolver)
             last = g.get("cvi_last")
             h.ensure("WRITABLE:version-base-comes-from-the-recovery-aware-resolver", g["cvi_calls"] >= 1)
             h.ensure("WRITABLE:next-version=resolved-version+1(1-only-if-nothing-is-resolvable)",
@@ -401,6 +397,18 @@ s3.before = None
 final = A.refresh()
 if acked and "B" not in final.properties and state.get("done"):
     bad.append("CAS: A was acknowledged although B's acknowledged commit (made after A's validation) was overwritten")
+# ---- WRITABLE on CAS: a commit through a stale pointer (names a missing file) must be numbered above every existing version
+s3b = FakeS3()
+W = MetadataManager("tbl", s3_backend(s3b)); W.initialize_table(TableMetadata(location="tbl"))
+for tag in ("c1", "c2", "c3"): bump(W, tag)
+hint = [k for k in s3b.objects if k[1].endswith("version-hint.text")][0]
+v1 = [k for k in s3b.objects if "/v1-" in k[1]][0]
+s3b.objects[hint] = v1[1].split("/")[-1].encode(); s3b._stamp(hint)
+del s3b.objects[v1]; s3b.meta.pop(v1, None)
+W2 = MetadataManager("tbl", s3_backend(s3b)); bump(W2, "acknowledged")
+del s3b.objects[hint]; s3b.meta.pop(hint, None)
+if "acknowledged" not in MetadataManager("tbl", s3_backend(s3b)).refresh().properties:
+    bad.append("CAS: a commit made through a stale pointer was numbered below an existing version; after the pointer was lost again recovery dropped it")
 # ---- same-millisecond metadata-only commits: stale base must not validate
 root = tempfile.mkdtemp(prefix="pyvc_replay_")
 try:
